@@ -157,6 +157,18 @@ def r09b(ck, prog):
             if kind:
                 break
         if kind is None:
+            # or under a case of an outer switch(biotype)
+            for anc in sw.ancestors():
+                if anc.k == "SwitchStmt" and any(r.d["name"] == "biotype" for r in anc.child("cond").refs()):
+                    for labels, stmts in switch_table(anc):
+                        if any(sw.within(st) or sw is st for st in stmts):
+                            for lab in labels:
+                                if lab[0] == "case" and lab[2] == "ALN_BIOTYPE_DNA":
+                                    kind = "nucleotide"
+                                if lab[0] == "case" and lab[2] == "ALN_BIOTYPE_PROTEIN":
+                                    kind = "protein"
+                    break
+        if kind is None:
             raise AnalysisBroken("R09b: switch(type) at %s is not under a biotype test" % sw.loc)
         switches[kind] = sw
     if set(switches) != {"nucleotide", "protein"}:
@@ -285,6 +297,63 @@ def _link_matches(cond, word, argname):
     return (not truth) if neg else truth
 
 
+def _table_dispatch(prog, fn, chain):
+    """dispatch by scanning a constant table {keyword, type} in ascending order, first hit wins"""
+    from ..model import N
+    from ..affine import loop_range
+    links, final = chain
+    if len(links) != 1:
+        return None
+    cond, then = links[0]
+    calls = [c for c in cond.calls() if c.callee in ("strstr", "strcmp")]
+    if len(calls) != 1:
+        return None
+    c = calls[0]
+    needle = c.args[1].strip(casts=True)
+    if needle.k != "MemberExpr" or needle.kids[0].strip(casts=True).k != "ArraySubscriptExpr":
+        return None
+    arr = needle.kids[0].strip(casts=True).kids[0].strip(casts=True)
+    idx = needle.kids[0].strip(casts=True).kids[1].strip(casts=True)
+    if arr.k != "DeclRefExpr":
+        return None
+    g = [x for x in prog.globals if x["name"] == arr.d["name"] and x.get("init")]
+    if not g:
+        return None
+    init = N(g[0]["init"], None, "init", None)
+    rec = prog.records.get(needle.d.get("rec"))
+    if rec is None:
+        return None
+    fnames = [f["name"] for f in rec["fields"]]
+    rows = []
+    for row in init.kids:
+        if row.k != "InitListExpr" or len(row.kids) != len(fnames):
+            return None
+        vals = dict(zip(fnames, row.kids))
+        kw = vals[needle.d["field"]].strip(casts=True)
+        const = None
+        for k, v in vals.items():
+            if k != needle.d["field"]:
+                const = macro_of_const(v.strip(casts=True))
+        if kw.k != "StringLiteral" or const is None:
+            return None
+        rows.append((kw.d["s"], const))
+    loops = [a for a in cond.ancestors() if a.k == "ForStmt"]
+    rng = loop_range(loops[0]) if loops else None
+    if rng is None or rng[0] != idx.text() or not (rng[1].is_const() and rng[1].c == 0):
+        return None
+    # the hit must leave the loop
+    from ..util import ends_in_jump
+    if not ends_in_jump(then) and not any(x.k in ("ReturnStmt", "BreakStmt") for x in then.walk()):
+        return None
+    # truth polarity: strstr(...) non-NULL / strcmp(...) == 0
+    t = cond.strip()
+    if c.callee == "strstr" and t is not c and not (t.k == "BinaryOperator" and t.d["op"] == "!="):
+        return None
+    if c.callee == "strcmp" and not ((t.k == "UnaryOperator" and t.d["op"] == "!") or (t.k == "BinaryOperator" and t.d["op"] == "==")):
+        return None
+    return rows, c.callee, cond
+
+
 def r09c(ck, prog):
     fn = prog.fn("set_aln_type")
     words = _documented_words(prog)
@@ -305,9 +374,37 @@ def r09c(ck, prog):
         if any(c.callee in ("strstr", "strcmp", "strncmp", "strcasecmp", "strncasecmp")
                for cond, _ in links for c in cond.calls()):
             chains.append((links, final))
+    table_mode = None
+    if len(chains) == 1 and not any(a.strip(casts=True).k == "StringLiteral" for cond, _ in chains[0][0] for c in cond.calls() for a in c.args):
+        table_mode = _table_dispatch(prog, fn, chains[0])
+        if table_mode is None:
+            raise AnalysisBroken("R09c: dispatch test not understood at %s" % chains[0][0][0][0].loc)
     if len(chains) != 1:
         raise AnalysisBroken("R09c: expected one string dispatch chain in set_aln_type, found %d" % len(chains))
     links, final = chains[0]
+    if table_mode is not None:
+        rows, test, loc_node = table_mode
+        for w in words:
+            want = WORD_TO_TYPE[w]
+            chosen = None
+            for idx, (kw, const) in enumerate(rows):
+                hit = (kw in w) if test == "strstr" else (kw == w)
+                if hit:
+                    chosen = (idx, kw, const)
+                    break
+            where = site(prog, loc_node, "word=%s" % w)
+            ck.inst("R09c", where, "--type %s -> table row %s" % (w, chosen), prog.config)
+            if chosen is None or chosen[2] != want:
+                ck.violation("R09c", "R09c/set_aln_type/%s" % w, where,
+                             "--type %s is caught by table row %s and yields %s instead of %s" % (
+                                 w, chosen[1] if chosen else None, chosen[2] if chosen else "nothing", want), prog.config,
+                             path=["row %d: %s -> %s" % (i, k, c) for i, (k, c) in enumerate(rows)])
+        und = [lit for lit in fn.body.find("IntegerLiteral") if "KALIGN_TYPE_UNDEFINED" in lit.mac]
+        ck.inst("R09c", site(prog, fn, "no --type"), "absent option -> KALIGN_TYPE_UNDEFINED assigned at %d site(s)" % len(und), prog.config)
+        if not und:
+            ck.violation("R09c", "R09c/set_aln_type/absent", site(prog, fn), "no path assigns KALIGN_TYPE_UNDEFINED when --type is absent", prog.config)
+        ck.floor("R09c", len(words), 5, "documented words")
+        return
     # assigned constant per link
     def assigned(body):
         names = set()
